@@ -341,6 +341,58 @@ func c04Run(c *fw.Ctx, b fw.Batch) {
 				}
 			}
 		}
+		if b.Idx == 0 {
+			// repeating a detection never changes the answer: documents whose deciding element
+			// offers several candidates (meta elements with 2-5 attributes in every order,
+			// duplicated attributes, several metas, XML declarations with pseudo-attributes in
+			// odd orders) are detected 40 times each
+			attrs := []string{`charset="iso-8859-1"`, `content="text/html; charset=koi8-r"`, `http-equiv="content-type"`, `name="description"`, `content="some page"`, `charset=windows-1251`, `http-equiv=refresh`, `CONTENT="text/html;charset=big5"`, `data-charset="x"`, `charset=""`}
+			var docs [][]byte
+			for i := 0; i < 260; i++ {
+				var sb strings.Builder
+				sb.WriteString("<html><head>")
+				for m := 1 + r.Intn(2); m > 0; m-- {
+					sb.WriteString("<meta")
+					for k := 2 + r.Intn(4); k > 0; k-- {
+						sb.WriteString(" " + attrs[r.Intn(len(attrs))])
+					}
+					sb.WriteString(">")
+				}
+				sb.WriteString("<title>t</title></head><body>caf\xe9</body></html>")
+				docs = append(docs, []byte(sb.String()))
+			}
+			for _, x := range []string{`<?xml version="1.0" encoding="koi8-r" standalone="yes" encoding="utf-16"?><a/>`, `<?xml encoding="latin1" version="1.0" encoding="utf-8"?><a/>`, `<?xml version='1.0' standalone='no' encoding='big5'?><a/>`} {
+				docs = append(docs, []byte(x))
+			}
+			for _, x := range docs {
+				key := fw.InputKey(x, 3072, "Detect/repeated")
+				pl := c04Payload{Kind: "repeat", Probe: c04Probe{Name: "input", In: x, Limit: 3072}}
+				c.Trace(func() (string, any) { return key, pl })
+				first, diff := "", ""
+				ok := c.Guard(key, func() any { return pl }, func() {
+					first = leafOf(lib.Detect(x, 3072))
+					for k := 0; k < 40 && diff == ""; k++ {
+						var got string
+						if k%4 == 3 {
+							mimetype.SetLimit(3072)
+							m, _ := mimetype.DetectReader(bytes.NewReader(x))
+							got = leafOf(m)
+						} else {
+							got = leafOf(lib.Detect(x, 3072))
+						}
+						if got != first {
+							diff = fmt.Sprintf("repetition %d gives %s, the first detection gave %s", k+1, got, first)
+						}
+					}
+				})
+				c.Eval(41)
+				c.Count("documents_detected_40_times", 1)
+				if ok && diff != "" {
+					c.Violate("repeat-differs", key, "repeating the detection of the same bytes changes the answer: "+diff+"; input "+fw.Quote(x, 160), pl)
+				}
+				c.Distinct("repeat|" + first)
+			}
+		}
 		lo, hi := split(len(ins), b.Idx, b.Of)
 		for _, x := range ins[lo:hi] {
 			if len(x) > 20000 {
@@ -564,6 +616,14 @@ func init() {
 			switch p.Kind {
 			case "limit-toggle":
 				c04Run(c, fw.Batch{Kind: "limit-toggle", N: 200})
+			case "repeat":
+				first := leafOf(lib.Detect(p.Probe.In, p.Probe.Limit))
+				for k := 0; k < 400; k++ {
+					if got := leafOf(lib.Detect(p.Probe.In, p.Probe.Limit)); got != first {
+						c.Violate("repeat-differs", "replay", fmt.Sprintf("repetition %d gives %s, the first detection gave %s", k+1, got, first), p)
+						break
+					}
+				}
 			case "tail-poison", "read-only":
 				a := leafOf(lib.Detect(p.Probe.In[:minInt(len(p.Probe.In), int(p.Probe.Limit))], p.Probe.Limit))
 				bb := leafOf(lib.Detect(p.Probe.In, p.Probe.Limit))
